@@ -1,6 +1,6 @@
 (* C02 — Observations and actions always live in the agents' declared spaces.
    Statements only; proofs in Proofs/Member_proofs.v, Proofs/AttackTotal_proofs.v,
-   Proofs/ObsHist_proofs.v and Proofs/ObsMember_proofs.v.
+   Proofs/AttackAdm_proofs.v, Proofs/ObsHist_proofs.v and Proofs/ObsMember_proofs.v.
 
    What is a theorem here (on the existing models Grid/Move.v, Grid/Attack.v, Spaces/*, Ctl/Super.v,
    Ctl/Comms.v; declared channels and null points in Grid/ActSpace.v):
@@ -387,4 +387,176 @@ Proof.
   split; [eexists; vm_compute; repeat split; reflexivity|].
   repeat split; try (vm_compute; reflexivity).
   eexists. split; [vm_compute; reflexivity|]. split; vm_compute; reflexivity.
+Qed.
+
+(* ==================================================================================================
+   Attack actors, EVERY admissible oracle (Grid/AttackAdm.v, Proofs/AttackAdm_proofs.v).
+   C02_attack_completes above says: for every uniform stream SOME admissible choice answers complete
+   the call.  Here: ALL of them do.  Grid/AttackAdm.v writes the read pattern of a call as a decision
+   tree (one node per np.random.uniform() / np.random.choice(...) call, children indexed by the
+   answer; `t_process vis s cf att a p act` for process_action, built from the trees of
+   _basic_criteria, _subset_attackables, the window scan and the four _determine_attack loops) and
+   defines on it, by recursion along the run:
+     adm t o       o is ADMISSIBLE for the call: every uniform read finds a value (any integer: also
+                   outside [0,1)), every choice read finds an answer numpy can give for the request
+                   presented at that read (req_ok: the right length, elements of the presented list,
+                   distinct when drawn without replacement; one element for np.random.choice(l); a
+                   sub-multiset of the hit list for the ammunition filter) — whatever the list is;
+     bad_read t o  some read finds the oracle dry or an answer numpy cannot give;
+     sat t         on EVERY path of admissible answers every request is one numpy accepts without
+                   ValueError (req_pre: population not empty, size >= 0, size <= population without
+                   replacement) and has an admissible answer.
+   ================================================================================================== *)
+From Abm Require Import Grid.AttackChk Grid.AttackAdm Proofs.AttackAdm_proofs.
+
+(* the tree is the model: for every oracle (admissible or not), every action, every visibility
+   function, process_attack is the run of the oracle along the tree; likewise _determine_attack *)
+Theorem C02_attack_tree_is_model : forall vis s cf att a p act o,
+  (determine vis s cf att p o act = run_tree (t_determine vis s cf att p act) o) /\
+  (agent s att = Some a -> a_pos a = Some p ->
+   process_attack vis s cf att o act = pres_of (run_tree (t_process vis s cf att a p act) o)).
+Proof. exact attack_tree_is_model. Qed.
+Print Assumptions C02_attack_tree_is_model.
+
+(* for each of the four attack actors (k), every state satisfying the invariant, every placed
+   attacker, every point of the declared channel: the point decodes to the actor's input; no request
+   on any admissible path makes numpy raise, and each has an answer (sat); and with EVERY admissible
+   oracle the call returns a result (never PBadOracle, never PErr) in a state satisfying ginv *)
+Theorem C02_attack_total_all_oracles : forall k vis s cf att a p pt,
+  ginv s -> agent s att = Some a -> a_pos a = Some p ->
+  member (attack_space k cf) pt = true ->
+  exists act, attack_of_point k cf pt = Some act /\
+    sat (t_process vis s cf att a p act) /\
+    forall o, adm (t_process vis s cf att a p act) o ->
+      exists st hits s' o', process_attack vis s cf att o act = POk st hits s' o' /\ ginv s'.
+Proof. exact attack_total_all_oracles. Qed.
+Print Assumptions C02_attack_total_all_oracles.
+
+(* the same for any action with non-negative counts (act_ok), member of a channel or not *)
+Theorem C02_attack_total_act_ok : forall vis s cf att a p act,
+  ginv s -> agent s att = Some a -> a_pos a = Some p -> act_ok act ->
+  sat (t_process vis s cf att a p act) /\
+  forall o, adm (t_process vis s cf att a p act) o ->
+    exists st hits s' o', process_attack vis s cf att o act = POk st hits s' o' /\ ginv s'.
+Proof. exact attack_total_act_ok. Qed.
+Print Assumptions C02_attack_total_act_ok.
+
+(* _determine_attack alone, for each of the four actors (act = ABinary / AEncoding / ASelective /
+   ARestricted), before the ammunition filter: all requests acceptable and answerable, and a result
+   exactly with an admissible oracle *)
+Theorem C02_determine_total_all_oracles : forall vis s cf att p act,
+  ginv s -> act_ok act ->
+  sat (t_determine vis s cf att p act) /\
+  forall o, adm (t_determine vis s cf att p act) o <->
+            exists st hits o', determine vis s cf att p o act = AOk (st, hits) o'.
+Proof. exact determine_total_all_oracles. Qed.
+Print Assumptions C02_determine_total_all_oracles.
+
+(* conversely, for every oracle and every action of a placed attacker: a result is returned exactly
+   with an admissible oracle; PBadOracle exactly when a read found the oracle dry or an answer numpy
+   cannot give; one of the two is the case, never both (and PErr never: C02_attack_no_error) *)
+Theorem C02_attack_bad_oracle_only : forall vis s cf att a p act o,
+  agent s att = Some a -> a_pos a = Some p ->
+  ((exists st hits s' o', process_attack vis s cf att o act = POk st hits s' o')
+     <-> adm (t_process vis s cf att a p act) o) /\
+  (process_attack vis s cf att o act = PBadOracle <-> bad_read (t_process vis s cf att a p act) o) /\
+  (adm (t_process vis s cf att a p act) o \/ bad_read (t_process vis s cf att a p act) o) /\
+  (adm (t_process vis s cf att a p act) o -> ~ bad_read (t_process vis s cf att a p act) o).
+Proof. exact attack_outcomes. Qed.
+Print Assumptions C02_attack_bad_oracle_only.
+
+(* ... and the result satisfies every clause of C11 (chk_attack = 0: status, eligibility, targeted
+   cell, limits, no double hit, no skipped target at full accuracy, ammunition, health / active /
+   frame, cells).  Extra hypotheses, as in chk_C11_model: the mapping's keys are a set, range and
+   strength are not negative, uniform draws <= 1 when the accuracy is 1 *)
+Theorem C02_attack_total_C11 : forall k vis s cf att a p pt o,
+  ginv s -> agent s att = Some a -> a_pos a = Some p ->
+  NoDup (c_mapping cf) -> 0 <= c_range cf -> 0 <= c_strength cf ->
+  (c_accuracy cf = HD -> Forall (fun u => u <= HD) (o_unif o)) ->
+  member (attack_space k cf) pt = true ->
+  exists act, attack_of_point k cf pt = Some act /\
+    (adm (t_process vis s cf att a p act) o ->
+     exists st hits s' o', process_attack vis s cf att o act = POk st hits s' o' /\ ginv s' /\
+       chk_attack vis s s' cf att act st hits = 0).
+Proof. exact attack_total_C11. Qed.
+Print Assumptions C02_attack_total_C11.
+
+(* oracles as functions: a responder answers the j-th choice read with r_choice rc j r for WHATEVER
+   request r is presented, and the i-th uniform read with r_unif rc i (any integer).  `responsive`:
+   every request numpy accepts and can answer is answered with one of numpy's answers.  For every
+   responsive responder the call completes; the transcript of its answers (play) is an admissible
+   oracle and is consumed exactly.  Responsive responders exist (first fit, any uniform stream). *)
+Theorem C02_attack_total_responders : forall vis s cf att a p act rc,
+  ginv s -> agent s att = Some a -> a_pos a = Some p -> act_ok act -> responsive rc ->
+  let r := play (t_process vis s cf att a p act) rc 0 0 in
+  let o := {| o_unif := fst (snd r); o_choice := snd (snd r) |} in
+  adm (t_process vis s cf att a p act) o /\
+  process_attack vis s cf att o act
+    = POk (fst (fst (fst r))) (snd (fst (fst r))) (snd (fst r)) {| o_unif := []; o_choice := [] |} /\
+  ginv (snd (fst r)).
+Proof. exact attack_total_responders. Qed.
+Print Assumptions C02_attack_total_responders.
+
+Theorem C02_responsive_exists : forall us, responsive (first_fit_responder us).
+Proof. exact first_fit_responsive. Qed.
+Print Assumptions C02_responsive_exists.
+
+(* ---- non-vacuity: 3x3 grid, agent 0 (encoding 1, one round) in the middle, three agents of encoding
+   2 at (0,0), (0,2), (2,1); range 1, two simultaneous attacks, full accuracy.  Scan order: 1, 2, 3. *)
+Definition adm_state : gstate :=
+  init_state 3 3 [] [nv_agent 1 (1, 1) (Some 1); nv_agent 2 (0, 0) None; nv_agent 2 (0, 2) None;
+                     nv_agent 2 (2, 1) None].
+Definition adm_tree (act : aaction) : otree (bool * list nat * gstate) :=
+  t_process vis_model adm_state nv_cf 0 (nv_agent 1 (1, 1) (Some 1)) (1, 1) act.
+
+Example C02_adm_nonvacuous :
+  agent adm_state 0 = Some (nv_agent 1 (1, 1) (Some 1)) /\
+  member (attack_space KBinary nv_cf) (PI 2) = true /\
+  (* three draws, np.random.choice([1, 2, 3], size=2, replace=False) = [3, 1], then the ammunition
+     filter np.random.choice([3, 1], size=1, replace=False) = [1]: admissible, and the call completes *)
+  adm (adm_tree (ABinary 2)) {| o_unif := [0; 5; HD]; o_choice := [[3; 1]%nat; [1%nat]] |} /\
+  (exists s' o', process_attack vis_model adm_state nv_cf 0
+                   {| o_unif := [0; 5; HD]; o_choice := [[3; 1]%nat; [1%nat]] |} (ABinary 2)
+                 = POk true [1%nat] s' o' /\ option_map a_active (agent s' 1) = Some false) /\
+  (* every other pair is admissible as well; a failed draw (HD + 1 > accuracy) shrinks the list *)
+  adm (adm_tree (ABinary 2)) {| o_unif := [0; 0; 0]; o_choice := [[2; 3]%nat; [3%nat]] |} /\
+  adm (adm_tree (ABinary 2)) {| o_unif := [0; HD + 1; 0]; o_choice := [[3; 1]%nat; [3%nat]] |} /\
+  (* the selective and the restricted actor aiming at the cells of agents 1 and 3 *)
+  adm (adm_tree (ASelective [1; 0; 0; 0; 0; 0; 0; 2; 0]))
+      {| o_unif := [0; 0]; o_choice := [[1%nat]; [3%nat]] |} /\
+  adm (adm_tree (ARestricted false [1; 8]))
+      {| o_unif := [0; 0]; o_choice := [[1%nat]; [3%nat]; [3%nat]] |} /\
+  adm (adm_tree (AEncoding [(2, 2)]))
+      {| o_unif := [0; 0; 0]; o_choice := [[1; 2]%nat; [2%nat]] |} /\
+  (* inadmissible: the same agent twice without replacement; an agent that is not a candidate; an
+     answer of the wrong length; an oracle that runs dry: bad_read, and the model says PBadOracle *)
+  bad_read (adm_tree (ABinary 2)) {| o_unif := [0; 0; 0]; o_choice := [[3; 3]%nat; [3%nat]] |} /\
+  process_attack vis_model adm_state nv_cf 0
+    {| o_unif := [0; 0; 0]; o_choice := [[3; 3]%nat; [3%nat]] |} (ABinary 2) = PBadOracle /\
+  bad_read (adm_tree (ABinary 2)) {| o_unif := [0; 0; 0]; o_choice := [[0; 1]%nat; [1%nat]] |} /\
+  bad_read (adm_tree (ABinary 2)) {| o_unif := [0; 0; 0]; o_choice := [[1; 2; 3]%nat] |} /\
+  bad_read (adm_tree (ABinary 2)) {| o_unif := [0; 0]; o_choice := [[1; 2]%nat; [1%nat]] |} /\
+  bad_read (adm_tree (ABinary 2)) {| o_unif := [0; 0; 0]; o_choice := [[1; 2]%nat] |} /\
+  process_attack vis_model adm_state nv_cf 0
+    {| o_unif := [0; 0; 0]; o_choice := [[1; 2]%nat] |} (ABinary 2) = PBadOracle /\
+  (* the first-fit responder: picks [1; 2], then [1] *)
+  (let r := play (adm_tree (ABinary 2)) (first_fit_responder (fun _ => 0)) 0 0 in
+   snd r = ([0; 0; 0], [[1; 2]%nat; [1%nat]]) /\ fst (fst r) = (true, [1%nat])).
+Proof.
+  split; [reflexivity|]. split; [reflexivity|].
+  split; [vm_compute; repeat split; reflexivity|].
+  split; [eexists; eexists; vm_compute; split; reflexivity|].
+  repeat split; try (vm_compute; auto; repeat split; reflexivity).
+Qed.
+
+Example C02_adm_nonvacuous_inv : ginv adm_state.
+Proof.
+  apply init_state_inv.
+  - intros a b. reflexivity.
+  - apply (forallb_Forall vitals_okb); [exact vitals_okb_ok|reflexivity].
+  - apply (forallb_Forall a_active); [auto|reflexivity].
+  - apply (forallb_Forall (fun a => match a_pos a with
+                                    | Some q => (0 <=? fst q) && (fst q <? 3) && (0 <=? snd q) && (snd q <? 3)
+                                    | None => true end)); [|reflexivity].
+    intros x. destruct (a_pos x); auto.
 Qed.
